@@ -65,6 +65,21 @@ class Capacity(O.Monitor):
             _, t, nid, ind, pop_node, pop_sys, at_exit, rectype = e[:8]
             cap = self.caps[nid - 1]
             if cap is None:
+                # scheduled / slotted node: which servers count towards the capacity is not documented (S1); clauses that hold
+                # under every reading are still asserted
+                qcap = B.num(self.spec["nodes"][nid - 1].get("cap", "inf"))
+                rejected = (at_exit and rectype == "rejection")
+                if rejected:
+                    r = ind.data_records[-1]
+                    if r.queue_size_at_arrival != pop_node:
+                        rep("rejection-record-shows-population-seen", {"customer": ind.id_number, "recorded": r.queue_size_at_arrival, "true": pop_node})
+                    if pop_node < qcap and pop_sys < self.syscap:
+                        rep("rejected-iff-full", {"node": nid, "customer": ind.id_number, "population": pop_node, "queue_capacity": qcap,
+                                                  "system_population": pop_sys, "rejected": True, "scheduled_node": True})
+                    self.activity["rejections"] += 1
+                elif not at_exit and self.upper[nid - 1] is not None and pop_node >= self.upper[nid - 1]:
+                    rep("rejected-iff-full", {"node": nid, "customer": ind.id_number, "population": pop_node, "capacity_upper_bound": self.upper[nid - 1],
+                                              "rejected": False, "scheduled_node": True})
                 continue
             full_node = pop_node >= cap
             full_sys = pop_sys >= self.syscap
@@ -187,6 +202,7 @@ class Blocking(O.Monitor):
                                                                 "record_time_blocked": O._num(r.time_blocked), "record_end": O._num(r.service_end_date)})
         if n_rel >= 2:
             self.activity["cascades"] += 1
+        self.activity["max_cascade"] = max(self.activity.get("max_cascade", 0), n_rel)
         # new blocks
         for nd in Q.transitive_nodes:
             for ind in O.customers(nd):
